@@ -214,6 +214,10 @@ func c18seqSweep(c *core.Ctx) {
 			}
 			for code := 0; code < total; code++ {
 				reg := newReg(kind)
+				// a second register of the same type is written between the calls: two
+				// values must not share anything
+				other := newReg(kind)
+				otherVal := int64(0)
 				var st any = regUnset
 				var hist []string
 				x := code
@@ -239,6 +243,11 @@ func c18seqSweep(c *core.Ctx) {
 						return
 					}
 					st = next
+					if prev, wf2 := other.swap(otherVal + 7); prev != otherVal || !wf2 {
+						c.Violate("seq:two-registers-interfere["+reg.name+"]", fmt.Sprintf("a second AtomicValue[%s], written only by Swap calls of its own, returned %d from Swap where it held %d; calls on the first one so far: %v", reg.name, prev, otherVal, hist), map[string]any{"calls": hist})
+						return
+					}
+					otherVal += 7
 				}
 				seqs++
 			}
@@ -434,6 +443,7 @@ type tok struct {
 	id     int64
 	owned  atomic.Int32
 	minted bool
+	home   int      // which pool minted it (items must never migrate between pools)
 	data   [4]int64 // written by the holder: a second holder would race on it
 }
 
@@ -455,7 +465,37 @@ func c18poolLong(c *core.Ctx) {
 		go func() {
 			defer wg.Done()
 			var held []*tok
+			hoardAt := rr.Range(1000, total/ng/2)
 			for i := 0; i < total/ng; i++ {
+				if i == hoardAt {
+					// hoard: 100..400 Gets in a row (long runs of misses), all items held at
+					// once, then all given back
+					n := rr.Range(100, 400)
+					start := len(held)
+					for k := 0; k < n; k++ {
+						t := p.Get()
+						if t == nil {
+							nilNew.Add(1)
+							continue
+						}
+						if !t.minted {
+							foreign.Add(1)
+						}
+						if !t.owned.CompareAndSwap(0, 1) {
+							two.Add(1)
+							continue
+						}
+						held = append(held, t)
+					}
+					for _, t := range held[start:] {
+						t.data[0]++
+						t.owned.Store(0)
+						p.Put(t)
+						puts.Add(1)
+					}
+					held = held[:start]
+					continue
+				}
 				// long climbs and descents: the pool runs nearly empty and nearly full in turn
 				up := (i/(maxHeld*3))%2 == 0
 				if len(held) > 0 && (len(held) >= maxHeld || rr.Chance(1, 2) != up || rr.Chance(1, 8)) {
@@ -517,12 +557,19 @@ func c18pool(c *core.Ctx) {
 		return
 	}
 	withNew := r.Chance(3, 4)
-	var p sync2.Pool[*tok]
+	// one pool, or (a third of the rounds) two pools of the same type used side by
+	// side: an item belongs to the pool that minted it and must never come out of the other
+	var pools [2]sync2.Pool[*tok]
+	np := 1
+	if r.Chance(1, 3) {
+		np = 2
+	}
 	if withNew {
 		// no shared counter in here: the race detector treats atomics as
 		// synchronisation, and a counter touched by every Get would order the
 		// callers and hide races between them
-		p.New = func() *tok { return &tok{minted: true} }
+		pools[0].New = func() *tok { return &tok{minted: true, home: 0} }
+		pools[1].New = func() *tok { return &tok{minted: true, home: 1} }
 	}
 	ng, nops := r.Range(2, 16), r.Range(10, 200)
 	type tally struct {
@@ -565,11 +612,12 @@ func c18pool(c *core.Ctx) {
 					held = held[:len(held)-1]
 					t.data[0]++ // last touch by the holder
 					t.owned.Store(0)
-					p.Put(t)
+					pools[t.home].Put(t)
 					t0.puts++
 					continue
 				}
-				t := p.Get()
+				pi := rr.Intn(np)
+				t := pools[pi].Get()
 				t0.gets++
 				if t == nil {
 					if withNew {
@@ -577,9 +625,9 @@ func c18pool(c *core.Ctx) {
 						continue
 					}
 					// New == nil: the zero value. Mint our own so that Put has something to pool.
-					t = &tok{id: int64(w+1)<<32 | int64(i), minted: true}
+					t = &tok{id: int64(w+1)<<32 | int64(i), minted: true, home: pi}
 				} else {
-					if !t.minted {
+					if !t.minted || t.home != pi {
 						t0.foreign++
 					}
 					if t.data[0] > 0 {
@@ -600,7 +648,7 @@ func c18pool(c *core.Ctx) {
 			}
 			for _, t := range held {
 				t.owned.Store(0)
-				p.Put(t)
+				pools[t.home].Put(t)
 			}
 		}()
 	}
@@ -619,6 +667,9 @@ func c18pool(c *core.Ctx) {
 		sum.fresh += t.fresh
 	}
 	c.Count("pool_rounds", 1)
+	if np == 2 {
+		c.Count("pool_rounds_two_pools_side_by_side", 1)
+	}
 	c.Count("pool_gets", sum.gets)
 	c.Count("pool_puts", sum.puts)
 	c.Count("pool_items_reused", sum.reused)
@@ -637,7 +688,7 @@ func c18pool(c *core.Ctx) {
 		return
 	}
 	if n := sum.foreign; n > 0 {
-		c.Violate("pool:invented-item", fmt.Sprintf("%d Get calls returned an item that was neither Put nor created by New", n), extra)
+		c.Violate("pool:invented-item", fmt.Sprintf("%d Get calls returned an item that was neither Put into THIS pool nor created by its New (pools in use: %d)", n, np), extra)
 		return
 	}
 	if n := sum.nilWithNew; n > 0 {
